@@ -125,6 +125,13 @@ pub fn generator(g: &str, x: f64, par: &Params) -> Option<f64> {
         "ath" => x.atanh(),
         "p" => if par.n.fract() == 0.0 && par.n.abs() < 1e9 { x.powi(par.n as i32 - 3) } else { x.powf(par.n - 3.0) },
         "n" => par.n,
+        // x^(n-j); for integral n >= 0 the entries beyond the n-th derivative vanish identically
+        "pw0" | "pw1" | "pw2" | "pw3" | "pw4" | "pw5" => {
+            let j = g[2..].parse::<i32>().ok()? as f64;
+            let e = par.n - j;
+            if par.n.fract() == 0.0 && par.n >= 0.0 && e < 0.0 { 0.0 }
+            else if e.fract() == 0.0 && e.abs() < 2e9 { x.powi(e as i32) } else { x.powf(e) }
+        }
         "j0" => par.j0?,
         "j1" => par.j1?,
         _ => return None,
